@@ -87,7 +87,7 @@ func runOracleAdmProbe(args []string) int {
 		_, _, serr = d.w.App.Simulate(bz2)
 		fmt.Printf("simulate with a worker in agc: err=%s\n", firstLine(serr))
 	}()
-	mem, _ := json.Marshal(oraclekeeper.VerifAdmDumpMem()["agcCheckTx"])
+	mem, _ := json.Marshal(deepDump(oraclekeeper.VerifAdmMemRoots()["agcCheckTx"]))
 	fmt.Printf("agcCheckTx after simulate: %.300s\n", mem)
 	_, _, serr = d.w.App.Simulate(bz2)
 	fmt.Printf("simulate again: err=%s\n", firstLine(serr))
@@ -114,7 +114,7 @@ func init() {
 			for _, v := range d.w.App.StakingKeeper.GetAllExocoreValidators(d.deliverCtx()) {
 				fmt.Print(d.model(sdk.ConsAddress(v.Address).String()), "=", v.Power, " ")
 			}
-			mem, _ := json.Marshal(oraclekeeper.VerifAdmDumpMem()["agc"].(map[string]interface{})["validatorsPower"])
+			mem, _ := json.Marshal(dfield(deepDump(oraclekeeper.VerifAdmMemRoots()["agc"]), "validatorsPower"))
 			fmt.Println(" agc", string(mem))
 		}
 		show("genesis")
